@@ -17,8 +17,8 @@ RULES = {
               'that rejects complex input: no TypeError on any path of an abstract run of Taylor.__call__, and the returned '
               'coefficients are those complex values (no projection to a real part, which for complex z0 / complex valued f drops '
               'information)',
-    'R-RESET': 'every attribute written while Taylor.__call__ runs (radius-search state machine) is assigned by _initialize, which runs '
-               'first: a call does not depend on a previous call on the same object',
+    'R-RESET': 'every attribute written while Taylor.__call__ runs (radius-search state machine) is written again before it is read in '
+               'the next call of the same object (whichever method does it): a call does not depend on a previous call',
     'R-FAILED': 'on every explored path `failed` is exactly "the loop ended without the convergence test succeeding" (iteration cap '
                 'reached), and `degenerate` is the flag of the state machine',
     'R-SELFCHECK': 'the interior self check of the radius search compares f(z0 + r*c) with the power series sum_k b_k c^k of the '
@@ -67,6 +67,7 @@ def taylor_runs(ctx, fb):
     for n, max_iter, num_extrap in ((1, 4, 1), (6, 5, 3)) if ctx.tier == 'quick' else ((1, 4, 1), (6, 5, 3), (12, 6, 2)):
         written = []
         records = []
+        stale = []
 
         def body(s, n=n, max_iter=max_iter, num_extrap=num_extrap):
             I = s.interp
@@ -85,14 +86,24 @@ def taylor_runs(ctx, fb):
                 coefs, info = obj(DV({('z0',)}, 'f', sel={('z0',)}))
             finally:
                 I.on_setattr = None
-            # a second call on the same object: the reset must be complete on *every* call, not only the first
+            # a second call on the same object: the reset must be complete on *every* call, not only the first.  What is state:
+            # every attribute the first call wrote.  What is a complete reset: in the second call each of them is written
+            # before it is read (whichever method does the writing).
+            state = {a for a, _ in log}
             del log[:]
             del rets[:]
-            I.on_setattr = lambda o, a, v: log.append((a, I.stack[-1] if I.stack else '?')) if o is obj else None
+            events = []
+            I.on_setattr = lambda o, a, v: (log.append((a, I.stack[-1] if I.stack else '?')), events.append(('w', a))) if o is obj else None
+            I.on_getattr = lambda o, a: events.append(('r', a)) if o is obj else None
             try:
                 coefs, info = obj(DV({('z0',)}, 'f', sel={('z0',)}))
             finally:
                 I.on_setattr = None
+                I.on_getattr = None
+            first = {}
+            for kind, a in events:
+                first.setdefault(a, kind)
+            stale.append(sorted(a for a in state if first.get(a) == 'r'))
             written.append(log)
             records.append((rets, info))
             return coefs, info, rets
@@ -122,17 +133,10 @@ def taylor_runs(ctx, fb):
         rep.check(not bad_failed, 'R-FAILED', 'fornberg.Taylor.__call__', where, {'paths': len(ex.paths), 'problems': bad_failed[:2]},
                   'failed == not converged at loop exit; cap reached iff never converged', label, key='failed')
         # reset completeness
-        in_init, elsewhere = set(), set()
-        for log in written:
-            for attr, fn in log:
-                if fn.endswith('Taylor._initialize'):
-                    in_init.add(attr)
-                else:
-                    elsewhere.add(attr)
-        missing = sorted(elsewhere - in_init)
-        rep.check(written and not missing, 'R-RESET', 'fornberg.Taylor._initialize', where,
-                  {'reset_by__initialize': sorted(in_init), 'written_during_call': sorted(elsewhere), 'not_reset': missing},
-                  'every attribute written during a call is assigned by _initialize', label, key='reset')
+        not_reset = sorted({a for lst in stale for a in lst})
+        rep.check(written and not not_reset, 'R-RESET', 'fornberg.Taylor.__call__', where,
+                  {'state_written_by_a_call': sorted({a for log in written for a, _ in log}), 'read_before_written_in_the_next_call': not_reset},
+                  'every attribute a call writes is written again before it is read in the next call', label, key='reset')
 
 
 def selfcheck(ctx, fb):
